@@ -43,3 +43,20 @@ Theorem C10_constraint_checker_correct : forall c routes,
   constraint_b c routes = true <-> exists r, In r routes /\ incl c (EulerProofs1.pairs r).
 Proof. exact constraint_b_correct. Qed.
 Print Assumptions C10_constraint_checker_correct.
+
+(* converse of C10_constraint_realised_in_one_layer for kFlowDecomp (PathEncComplete.v): ANY decomposition whose paths
+   cover every constraint to the required fraction is admitted by the generated model (no constraint-covering solution is
+   cut off), and with soundness: the k-model is feasible iff such a decomposition exists *)
+From FP Require Import PathEncComplete PathEncExample.
+Theorem C10_constraint_rows_cut_off_nothing : forall (I : kfd_inst) (rank : node -> nat) (Rm : nat),
+  PathEncProofs.wf_graph (p_graph (f_base I)) -> p_allow_empty (f_base I) = false ->
+  (forall u v, In (u, v) (g_edges (p_graph (f_base I))) -> (rank u < rank v)%nat) -> (forall v, (rank v <= Rm)%nat) ->
+  (forall c e, In c (p_cons (f_base I)) -> In e c -> In e (g_edges (p_graph (f_base I))) /\ (0 <= elen (f_base I) e)%Q) ->
+  ((exists a, sat a (encode_kfd I)) <-> (exists P w, decomposition I P w /\ constraints_covered (f_base I) P)).
+Proof. exact kfd_feasible_iff_cons. Qed.
+Print Assumptions C10_constraint_rows_cut_off_nothing.
+
+Example C10_premises_satisfiable :
+  (decomposition (exI 2) exP exW /\ constraints_covered (f_base (exI 2)) exP) /\ exists a, sat a (encode_kfd (exI 2)).
+Proof. exact (conj ex_decomposition ex_lp_feasible_2). Qed.
+Print Assumptions C10_premises_satisfiable.
